@@ -70,6 +70,12 @@ def generate(rng, tier):
             c = c[2:]; w = False
         nw += w
         cases.append(c)
+    # long histories: thousands of stored terms before a construction is re-issued (a table that is
+    # trimmed, rehashed or re-created after many insertions must still find every earlier term)
+    for nlong in ([3000] if tier == "quick" else [3000, 34000]):
+        st = ["char 98"] + ["pow 0 %d" % k for k in range(2, nlong + 2)]
+        st += ["char 98", "same 0 %d" % (nlong + 1), "pow 0 5", "same 4 %d" % (nlong + 2), "str 2 98 98", "pow 0 2", "same %d %d" % (nlong + 3, nlong + 4)]
+        cases.append(" ; ".join(st))
     info = {"rule": "random histories of 5-40 statements on one manager (constructors with operands allocated in varied id order, interleaved derivatives, iter_derivatives, is_empty_re, compile that allocate ids and fill the cache), complement involution / no fixed point, then up to 6 earlier constructor statements re-issued verbatim and compared by == and pointer identity with the original; final membership bits against the denotation; a share of cases goes through the SMT-LIB wrappers on a fresh thread-local manager",
             "distribution": {"cases": n, "via_wrappers": nw}}
     return cases, info
